@@ -165,7 +165,7 @@ func TestVerif_C24(t *testing.T) {
 		_ = drain()
 
 		// one retirement
-		kind := []string{"expiry", "expiry", "retry", "round-reset", "deferral", "full-pool", "announcement-error", "duplicate-deferral"}[rng.Intn(8)]
+		kind := []string{"expiry", "expiry", "retry", "round-reset", "deferral", "full-pool", "announcement-error", "duplicate-deferral", "response-after-references-replaced"}[rng.Intn(9)]
 		retired := map[*vC24Proposal]bool{}
 		ownedSet := map[crypto.Hash]bool{}
 		var extra []*vC24Tx // transactions of the triggering self snapshot (deferral / full pool / announcement error)
@@ -201,6 +201,110 @@ func TestVerif_C24(t *testing.T) {
 				ownedSet[v.hash] = true
 			}
 			panicked, panicVal, _ = verifkit.Guard(func() { chain.resetCosiStateForNewRound(owned) })
+		case "response-after-references-replaced":
+			// a proposal announced into the still empty head round collects its commitments and all responses (a complete,
+			// valid collective signature), but meanwhile the references of the empty head round were replaced: the response
+			// handler retires it
+			pr := props[rng.Intn(len(props))]
+			old := pr.snap.Hash
+			selfRef := crypto.Blake3Hash([]byte(fmt.Sprint("c24-self-ref", i)))
+			pr.snap.References = &common.RoundLink{Self: selfRef, External: crypto.Blake3Hash([]byte(fmt.Sprint("c24-old-external", i)))}
+			pr.snap.Hash = pr.snap.PayloadHash()
+			delete(chain.CosiAggregators, old)
+			delete(chain.CosiVerifiers, old)
+			chain.CosiCommunicatedAt = map[crypto.Hash]time.Time{}
+			chain.State = &ChainState{
+				CacheRound: &CacheRound{NodeId: self, Number: 5, Timestamp: pr.snap.Timestamp,
+					References: &common.RoundLink{Self: selfRef, External: crypto.Blake3Hash([]byte(fmt.Sprint("c24-new-external", i)))}},
+				FinalRound: &FinalRound{NodeId: self, Number: 4},
+			}
+			ids, publics := chain.ConsensusKeys(5, pr.snap.Timestamp)
+			own := -1
+			for k, id := range ids {
+				if id == self {
+					own = k
+				}
+			}
+			thr := f.node.ConsensusThreshold(pr.snap.Timestamp, false)
+			if own < 0 || thr > len(ids) {
+				r.Count("scenario_setup_did_not_take_the_intended_path_"+kind, 1)
+				continue
+			}
+			signers := []int{own}
+			for _, k := range rng.Perm(len(ids)) {
+				if k != own && len(signers) < thr+rng.Intn(len(ids)-thr+1) {
+					signers = append(signers, k)
+				}
+			}
+			nonces := map[int]*crypto.CosiNonce{}
+			commitments := map[int]*crypto.Key{}
+			for _, k := range signers {
+				nonce := crypto.CosiCommitNonce(crypto.RandReader())
+				R := nonce.Public()
+				nonces[k], commitments[k] = nonce, &R
+			}
+			signature, err := crypto.CosiAggregateCommitment(commitments)
+			if err != nil {
+				t.Fatal(err)
+			}
+			pr.snap.Signature = signature
+			responses := map[int]*[32]byte{}
+			bad := false
+			for _, k := range signers {
+				key := f.keyOf(ids[k])
+				if key == nil {
+					bad = true
+					break
+				}
+				resp, err := nonces[k].Response(signature, key, publics, pr.snap.Hash)
+				if err != nil {
+					bad = true
+					break
+				}
+				responses[k] = resp
+			}
+			if bad {
+				r.Count("scenario_setup_did_not_take_the_intended_path_"+kind, 1)
+				continue
+			}
+			last := signers[len(signers)-1]
+			agg := &CosiAggregator{Snapshot: pr.snap, WantTxs: map[crypto.Hash][]crypto.Hash{}, FullChallenges: map[crypto.Hash]bool{},
+				Commitments: commitments, Responses: map[int]*[32]byte{}}
+			found := map[crypto.Hash]*common.VersionedTransaction{}
+			for _, v := range pr.txs {
+				if v.tx != nil {
+					agg.Transactions = append(agg.Transactions, v.tx)
+					found[v.hash] = v.tx
+				}
+			}
+			for _, k := range signers {
+				if k != last {
+					agg.Responses[k] = responses[k]
+				}
+			}
+			ver := &CosiVerifier{Snapshot: pr.snap, nonce: nonces[own]}
+			chain.CosiAggregators[pr.snap.Hash] = agg
+			chain.CosiVerifiers[pr.snap.Hash] = ver
+			for _, v := range pr.txs {
+				if owner[v.hash] == pr {
+					chain.CosiVerifiers[v.hash] = ver
+				}
+			}
+			pr.commitments, pr.responses = len(signers), len(signers)-1
+			retired[pr] = true
+			m := &CosiAction{Action: CosiActionSelfResponse, PeerId: ids[last], SnapshotHash: pr.snap.Hash, Response: responses[last],
+				data: &CosiChainData{PN: &CNode{IdForNetwork: ids[last], ConsensusIndex: last}, CN: &CNode{IdForNetwork: ids[own], ConsensusIndex: own}, FoundTxs: found}}
+			if f.node.Peer == nil { // the handler logs the peer address
+				f.node.Peer = p2p.NewPeer(f.node, self, "verif", false)
+			}
+			panicked, panicVal, _ = verifkit.Guard(func() {
+				if err := chain.cosiHandleResponse(m); err != nil {
+					panic("response handler: " + err.Error())
+				}
+				if chain.CosiAggregators[pr.snap.Hash] != nil {
+					panic("response handler did not retire the proposal")
+				}
+			})
 		case "duplicate-deferral":
 			// the new self snapshot (same round, inside the gap) repeats transactions that a still-active proposal
 			// owns, at random positions among fresh companions: the companions are requeued, the owned ones are not
